@@ -687,6 +687,118 @@ def C09_function_body_constants_follow_precision():
     return True, "function-body constants follow the requested precision in both directions"
 
 
+def C09_literal_precision_family():
+    """double-precision exports whose program contains pairs of float64 literals that agree to float32 resolution
+    (1.0 / 1+1e-9, 0.1 / float(float32(0.1)), pi / 3.14159265) at top level, inside a fori_loop body, a cond branch and an
+    @onnx_function body: ONNX Runtime (graph optimisations off) must agree with a float64 numpy evaluation to 1e-13 relative,
+    and the single-precision export of the same programs contains no DOUBLE tensor."""
+    import math
+    import jax
+    import onnx
+    import onnxruntime as ort
+    from jax import lax
+    import jax.numpy as jnp
+    from witnesses import _fnmods
+    lo = float(np.float32(0.1))
+
+    def top(x):
+        return (x + 1.0) * 1.000000001 + 0.1 - lo
+
+    def in_loop(x):
+        return lax.fori_loop(0, 2, lambda i, c: (c * 1.0 + 0.1) * (1.0 - 1e-10) - lo, x)
+
+    def in_cond(x):
+        return lax.cond(x[0] > 0.0, lambda v: v * math.pi - 3.14159265 * v, lambda v: v * 1.000000001 - v * 1.0, x)
+
+    def in_fn(x):
+        return _fnmods.near_equal_literals(x)
+
+    def ref(name, x):
+        if name == "top":
+            return (x + 1.0) * 1.000000001 + 0.1 - lo
+        if name == "in_loop":
+            c = x
+            for _ in range(2):
+                c = (c * 1.0 + 0.1) * (1.0 - 1e-10) - lo
+            return c
+        if name == "in_cond":
+            return x * math.pi - 3.14159265 * x if x[0] > 0 else x * 1.000000001 - x * 1.0
+        return (x + 1.0) * 1.000000001 - 3.14159265 + 3.141592653589793
+    start = bool(jax.config.jax_enable_x64)
+    n = 0
+    try:
+        for x64 in (False, True):
+            jax.config.update("jax_enable_x64", x64)
+            for name, fn in (("top", top), ("in_loop", in_loop), ("in_cond", in_cond), ("in_fn", in_fn)):
+                try:
+                    m = _export(fn, [jax.ShapeDtypeStruct((3,), np.float64)], enable_double_precision=True)
+                except Exception as e:
+                    continue      # a loud export failure is not a silent precision loss
+                so = ort.SessionOptions()
+                so.log_severity_level = 4
+                so.graph_optimization_level = ort.GraphOptimizationLevel.ORT_DISABLE_ALL
+                sess = ort.InferenceSession(m.SerializeToString(), so, providers=["CPUExecutionProvider"])
+                for x in (np.asarray([1.0, 2.0, 3.0]), np.asarray([-1.5, 0.25, 7.0])):
+                    got = sess.run(None, {sess.get_inputs()[0].name: x})[0]
+                    want = ref(name, x)
+                    err = float(np.max(np.abs(got - want) / np.maximum(1e-30, np.maximum(np.abs(want), 1e-9))))
+                    if got.dtype != np.float64 or not np.allclose(got, want, rtol=1e-13, atol=1e-18):
+                        return False, f"double-precision export of `{name}` (x64 flag {x64}): model gives {got.tolist()}, float64 evaluation gives {want.tolist()} (relative error {err:.2e})"
+                    n += 1
+    finally:
+        jax.config.update("jax_enable_x64", start)
+    return True, f"{n} double-precision evaluations agree with float64 numpy to 1e-13"
+
+
+def C19_reduction_kwargs_history_family(only_prod_default=False):
+    """keyword arguments of the jnp reductions must act on every trace, whatever was traced before in the same process:
+    jnp.sum/prod/max/min/mean/any/all with every combination of axis (None, 0, -1, (0, 1)), keepdims, dtype and
+    (sum/prod) promote_integers on int8/int16/uint8/float32 operands, exported one after the other; the declared output
+    element type and shape of each export must be those of jax.eval_shape of the same call."""
+    import itertools
+    import jax
+    import jax.numpy as jnp
+    import onnx
+    import jax2onnx
+    np2onnx = {np.dtype(k): v for k, v in {"int8": 3, "int16": 5, "int32": 6, "int64": 7, "uint8": 2, "uint16": 4, "uint32": 12, "uint64": 13, "float32": 1, "float64": 11, "bool": 9, "float16": 10}.items()}
+    n = 0
+    calls = []
+    for red in ("sum", "prod", "max", "min", "mean", "any", "all"):
+        for in_dt in (np.int8, np.int16, np.uint8, np.float32):
+            for axis, keepdims in ((None, False), (0, False), (-1, True), ((0, 1), False)):
+                extra = [{}]
+                if red in ("sum", "prod"):
+                    extra = [{}, {"promote_integers": False}, {"promote_integers": True}, {"dtype": np.float32}]
+                for kw in extra:
+                    calls.append((red, in_dt, axis, keepdims, kw))
+    # known finding D32 (separate witness): jnp.prod of a narrow integer operand without dtype= is not promoted to the default integer
+    is_d32 = lambda c_: c_[0] == "prod" and np.dtype(c_[1]).kind in "iu" and "dtype" not in c_[4]  # noqa: E731
+    if only_prod_default:
+        calls = [c_ for c_ in calls if is_d32(c_) and not c_[4]][:4]
+    else:
+        calls = [c_ for c_ in calls if not is_d32(c_)]
+        rnd = np.random.default_rng(0)
+        rnd.shuffle(calls)
+        calls = calls[:70]
+    for red, in_dt, axis, keepdims, kw in calls + calls[:20][::-1]:       # a second visit of some calls, in another order
+        fn = lambda x, red=red, axis=axis, keepdims=keepdims, kw=kw: getattr(jnp, red)(x, axis=axis, keepdims=keepdims, **kw)  # noqa: E731
+        spec = jax.ShapeDtypeStruct((2, 3), in_dt)
+        try:
+            want = jax.eval_shape(fn, spec)
+        except Exception:
+            continue
+        try:
+            m = jax2onnx.to_onnx(fn, [spec], model_name="c19hist")
+        except Exception:
+            continue          # a loud rejection is not a silently ignored argument
+        out = m.graph.output[0].type.tensor_type
+        got_shape = tuple(d.dim_value for d in out.shape.dim)
+        if out.elem_type != np2onnx.get(np.dtype(want.dtype)) or got_shape != tuple(want.shape):
+            return False, f"jnp.{red}(x:{np.dtype(in_dt).name}[2,3], axis={axis}, keepdims={keepdims}, {kw}) exported after {n} other traces: model output {onnx.TensorProto.DataType.Name(out.elem_type)}{list(got_shape)}, JAX gives {np.dtype(want.dtype).name}{list(want.shape)}"
+        n += 1
+    return True, f"{n} reduction exports in one process declare the JAX result type"
+
+
 def C03_function_identifiers_unique():
     """the same @onnx_function instantiated inside another function (2,3) and at top level (2,5): every
     function definition has its own (domain, name), the model passes the ONNX checker and agrees with JAX"""
@@ -716,7 +828,20 @@ def C03_function_identifiers_unique():
         onnx.checker.check_model(model, full_check=True)
     except Exception as e:
         return False, f"onnx.checker rejects the model: {str(e)[:160]}"
-    return _cmp(f, [(2, 3), (2, 5)], [a, b])
+    ok, detail = _cmp(f, [(2, 3), (2, 5)], [a, b])
+    if not ok:
+        return ok, detail
+    # two DIFFERENT targets with the same display name in one program: two definitions, two identifiers
+    def g(x, y):
+        return _fnmods.block_scale(x) + _fnmods.block_mix(x, y)
+    try:
+        model = _export(g, [(2, 3), (2, 3)])
+    except Exception as e:
+        return True, f"export raised {type(e).__name__}"
+    ids = [(fn.domain, fn.name) for fn in model.functions]
+    if len(ids) != 2 or len(set(ids)) != 2:
+        return False, f"two different functions displayed as `Block` give the definitions {sorted(ids)} (expected two distinct identifiers)"
+    return _cmp(g, [(2, 3), (2, 3)], [a, a * 0.5 + 1.0])
 
 
 def C07_sharing_family():
@@ -1164,6 +1289,9 @@ ALL = {
     "C07_sharing_family": C07_sharing_family,
     "C03_function_identifiers_unique": C03_function_identifiers_unique,
     "C09_function_body_constants_follow_precision": C09_function_body_constants_follow_precision,
+    "C09_literal_precision_family": C09_literal_precision_family,
+    "C19_reduction_kwargs_history_family": C19_reduction_kwargs_history_family,
+    "D32_prod_integer_promotion": lambda: C19_reduction_kwargs_history_family(only_prod_default=True),
     "D10_cumprod_lax": D10_cumprod_lax, "D10_cumprod_jnp": D10_cumprod_jnp, "D10_bitcast": D10_bitcast,
     "C11_ops_within_opset": C11_ops_within_opset, "C11_function_body_opset": C11_function_body_opset,
     "C16_reverse_scan_is_loud": C16_reverse_scan_is_loud, "C16_unbound_output_is_loud": C16_unbound_output_is_loud,
